@@ -133,6 +133,8 @@ def run(tier, seed):
     logging.disable(logging.CRITICAL)
     warnings.simplefilter("ignore")
     quick = tier == "quick"
+    if os.environ.get("VERIF_REPLAY_FILE"):
+        return replay(os.environ["VERIF_REPLAY_FILE"])
     if quick:
         plans = [(("dX", "dY"), "memo-lines", 1), (("dX", "dZ"), "memo-lines+entries", 1), (("dZ", "dX"), "memo-lines", 1),
                  (("cA", "cB"), "antlr-entries", 1), (("cA", "dX"), "antlr-entries", 1)]
@@ -252,3 +254,24 @@ def free_running(n):
             viols.append({"kind": "free-running-differs", "case_hash": runner.case_hash(("free", names, k)), "case_id": repr(("free", names)),
                           "detail": {"threads": names, "got": json.dumps(res)[:1000]}})
     return {"runs": runs, "viols": viols}
+
+
+def replay(path):
+    """Re-execute one recorded schedule twice (no exploration) and compare with the sequential results."""
+    rec = json.load(open(path))
+    d = rec["detail"]
+    if "schedule" not in d:
+        print("this record has no schedule (free-running pass): run the check instead")
+        return 2
+    names, gran, prefix = list(d["threads"]), d["granularity"], tuple(d["schedule"])
+    expect = [sequential(n) for n in names]
+    setup = make_setup(names, gran)
+    bad = 0
+    for _, out in sched.run_many(setup, [prefix, prefix], 2, 180.0):
+        ok = not out.get("error") and all(r == e for r, e in zip(out["results"], expect))
+        print("schedule", list(prefix), "->", "as sequential" if ok else "DIFFERS / error: " + str(out.get("error") or [r[:2] for r in out["results"]]))
+        bad += 0 if ok else 1
+    if bad:
+        print(f"VIOLATION property={ID} replay={path}")
+        return 1
+    return 0
